@@ -867,3 +867,1365 @@ Proof.
     + destruct Hin as [X|[]]; discriminate.
     + destruct Hin as [X|[]]; discriminate.
 Qed.
+
+(* ------------------------------------------------------------------------------------------- *)
+(** * 8. Message level: Protocol.read *)
+
+(** ** 8.1 reads = successive read results, WouldBlocks dropped, up to the first error *)
+
+Fixpoint reads (fuel : nat) (x : ctx) (w : world) : list (res message) :=
+  match fuel with
+  | O => [ROutOfFuel]
+  | S f =>
+      let '(r, x', w') := read x w in
+      match r with
+      | ROk m => r :: reads f x' w'
+      | RErr (EIo WouldBlock) => match w_rds w' with [] => [] | _ => reads f x' w' end
+      | _ => [r]
+      end
+  end.
+
+(** ** 8.2 The unrestricted statement is false in the model.
+   Server, write_buffer_size 100, max_write_buffer_size 101.  A 96-byte Binary message is written: its
+   98-byte frame stays in out_buffer (below write_buffer_size, nothing is sent).  The peer sends a Close
+   frame followed by an (illegal) empty Text frame.  The 4-byte Close reply does not fit next to the 98
+   queued bytes, so the first flush attempt re-parks it (and drains out_buffer).
+   - whole stream at once: the next loop iteration reads the Text frame: ReceivedAfterClosing;
+   - a WouldBlock between the two frames: read returns WouldBlock, the next read call retries the reply,
+     it fits now, the server tail of _write terminates: ConnectionClosed.                          *)
+Definition cx_cfg : config := mkConfig 100 101 None None false.
+Definition cx_close : bytes := [136; 130; 0; 0; 0; 0; 3; 232].
+Definition cx_text : bytes := [129; 128; 0; 0; 0; 0].
+Definition cx_world (rds : list rd_out) : world :=
+  mkWorld rds (repeat (WrAccept 1000) 10) (repeat FlOk 10) [] [].
+Definition cx_whole : list rd_out := [RdData (cx_close ++ cx_text)].
+Definition cx_cut : list rd_out := [RdData cx_close; RdErr WouldBlock; RdData cx_text].
+Definition cx_run (rds : list rd_out) : option (res unit * list (res message)) :=
+  match ctx_new Server [] cx_cfg with
+  | Some x0 =>
+      let '(r, x, w) := write x0 (MBinary (repeat 0 96%nat)) (cx_world rds) in
+      Some (r, reads 50 x w)
+  | None => None
+  end.
+
+Lemma messages_refuted :
+  sched_data cx_whole = sched_data cx_cut /\ sched_end cx_whole = sched_end cx_cut /\
+  cx_run cx_whole = Some (ROk tt, [ROk (MClose (Some (CNormal, []))); RErr (EProtocol ReceivedAfterClosing)]) /\
+  cx_run cx_cut = Some (ROk tt, [ROk (MClose (Some (CNormal, []))); RErr EConnectionClosed]).
+Proof. vm_compute. repeat split; reflexivity. Qed.
+
+(** ** 8.3 One iteration of read's loop = pre_step ; read_frame ; on_frame *)
+
+(* what the loop does before read_message_frame: flush pending replies / server termination *)
+Definition pre_step (x : ctx) (w : world) : res unit * ctx * world :=
+  if (match x_additional x with Some _ => true | None => false end) || x_unflushed x then
+    let '(r, x', w') := flush x w in
+    match r with
+    | ROk _ => (ROk tt, x', w')
+    | RErr (EIo WouldBlock) => (ROk tt, set_unflushed x' true, w')
+    | _ => (r, x', w')
+    end
+  else if role_eqb (x_role x) Server && negb (can_read (x_state x)) then
+    let '(rw, c', w') := write_out_buffer (x_codec x) w in
+    match rw with
+    | ROk _ => (RErr EConnectionClosed, set_state (set_codec x c') Terminated, w')
+    | _ => (rw, set_codec x c', w')
+    end
+  else (ROk tt, x, w).
+
+Lemma read_loop_S f x w :
+  read_loop (S f) x w =
+  let '(r0, x0, w0) := pre_step x w in
+  match r0 with
+  | ROk _ =>
+      let '(r1, x1, w1) := read_message_frame x0 w0 in
+      match r1 with
+      | ROk (Some m) => (ROk m, x1, w1)
+      | ROk None => read_loop f x1 w1
+      | RErr e => (RErr e, x1, w1)
+      | RPanic s => (RPanic s, x1, w1)
+      | ROutOfFuel => (ROutOfFuel, x1, w1)
+      end
+  | RErr e => (RErr e, x0, w0)
+  | RPanic s => (RPanic s, x0, w0)
+  | ROutOfFuel => (ROutOfFuel, x0, w0)
+  end.
+Proof. reflexivity. Qed.
+
+(* what read_message_frame does with the result of read_frame: a pure function of the context *)
+Definition on_frame (x1 : ctx) (r0' : res (option frame)) : res (option message) * ctx :=
+  match r0' with
+  | RErr e => (RErr e, x1)
+  | RPanic s => (RPanic s, x1)
+  | ROutOfFuel => (ROutOfFuel, x1)
+  | ROk None =>
+      let x2 := set_state x1 Terminated in
+      match x_state x1 with
+      | ClosedByPeer | CloseAcknowledged => (RErr EConnectionClosed, x2)
+      | _ => (RErr (EProtocol ResetWithoutClosingHandshake), x2)
+      end
+  | ROk (Some f) =>
+      let h := f_hdr f in
+      if negb (can_read (x_state x1)) then (RErr (EProtocol ReceivedAfterClosing), x1) else
+      if h_rsv1 h || h_rsv2 h || h_rsv3 h then (RErr (EProtocol NonZeroReservedBits), x1) else
+      if role_eqb (x_role x1) Client && (match h_mask h with Some _ => true | None => false end)
+      then (RErr (EProtocol MaskedFrameFromServer), x1) else
+      match h_opcode h with
+      | OCtl ctl =>
+          if negb (h_fin h) then (RErr (EProtocol FragmentedControlFrame), x1) else
+          if 125 <? blen (f_payload f) then (RErr (EProtocol ControlFrameTooBig), x1) else
+          match ctl with
+          | Close =>
+              match frame_into_close (f_payload f) with
+              | ROk cl =>
+                  let '(r, x2) := do_close x1 cl in
+                  match r with
+                  | ROk (Some c) => (ROk (Some (MClose c)), x2)
+                  | ROk None => (ROk None, x2)
+                  | RErr e => (RErr e, x2)
+                  | RPanic s => (RPanic s, x2)
+                  | ROutOfFuel => (ROutOfFuel, x2)
+                  end
+              | RErr e => (RErr e, x1)
+              | RPanic s => (RPanic s, x1)
+              | ROutOfFuel => (ROutOfFuel, x1)
+              end
+          | CReserved i => (RErr (EProtocol (UnknownControlFrameType i)), x1)
+          | Ping =>
+              let x2 := if is_active (x_state x1) then set_additional x1 (frame_pong (f_payload f)) else x1 in
+              (ROk (Some (MPing (f_payload f))), x2)
+          | Pong => (ROk (Some (MPong (f_payload f))), x1)
+          end
+      | OData d =>
+          let fin := h_fin h in
+          match d with
+          | Continue =>
+              match x_incomplete x1 with
+              | Some msg =>
+                  let '(r, msg') := incmsg_extend msg (f_payload f) (cfg_max_message_size (x_cfg x1)) in
+                  let x2 := set_incomplete x1 (Some msg') in
+                  match r with
+                  | ROk _ =>
+                      if fin then
+                        match incmsg_complete msg' with
+                        | ROk m => (ROk (Some m), set_incomplete x2 None)
+                        | RErr e => (RErr e, set_incomplete x2 None)
+                        | RPanic s => (RPanic s, x2)
+                        | ROutOfFuel => (ROutOfFuel, x2)
+                        end
+                      else (ROk None, x2)
+                  | RErr e => (RErr e, x2)
+                  | RPanic s => (RPanic s, x2)
+                  | ROutOfFuel => (ROutOfFuel, x2)
+                  end
+              | None => (RErr (EProtocol UnexpectedContinueFrame), x1)
+              end
+          | _ =>
+              match x_incomplete x1 with
+              | Some _ => (RErr (EProtocol (ExpectedFragment d)), x1)
+              | None =>
+                  match d with
+                  | DReserved i => (RErr (EProtocol (UnknownDataFrameType i)), x1)
+                  | Continue => (RPanic site_not_text_nor_binary, x1)
+                  | Text | Binary =>
+                      if fin then
+                        match check_max_size (blen (f_payload f)) (cfg_max_message_size (x_cfg x1)) with
+                        | ROk _ =>
+                            match d with
+                            | Text => if is_utf8 (f_payload f) then (ROk (Some (MText (f_payload f))), x1)
+                                      else (RErr EUtf8, x1)
+                            | _ => (ROk (Some (MBinary (f_payload f))), x1)
+                            end
+                        | RErr e => (RErr e, x1)
+                        | RPanic s => (RPanic s, x1)
+                        | ROutOfFuel => (ROutOfFuel, x1)
+                        end
+                      else
+                        let inc0 := match d with Text => ITxt collector_new | _ => IBin [] end in
+                        let '(r, inc1) := incmsg_extend inc0 (f_payload f) (cfg_max_message_size (x_cfg x1)) in
+                        match r with
+                        | ROk _ => (ROk None, set_incomplete x1 (Some inc1))
+                        | RErr e => (RErr e, x1)
+                        | RPanic s => (RPanic s, x1)
+                        | ROutOfFuel => (ROutOfFuel, x1)
+                        end
+                  end
+              end
+          end
+      end
+  end.
+
+Ltac head_destruct :=
+  repeat (match goal with
+          | |- (if ?b then _ else _) = _ => destruct b
+          | |- (match ?t with _ => _ end) = _ => destruct t
+          | |- (let '(_, _) := ?t in _) = _ => destruct t
+          end; try reflexivity).
+
+Lemma read_message_frame_eq x w :
+  read_message_frame x w =
+  let '(r0, c1, w1) := read_frame (cfg_max_frame_size (x_cfg x)) (role_eqb (x_role x) Server)
+                                  (cfg_accept_unmasked (x_cfg x)) (x_codec x) w in
+  let '(r0', s1) := check_connection_reset r0 (x_state x) in
+  let '(r, x2) := on_frame (set_state (set_codec x c1) s1) r0' in
+  (r, x2, w1).
+Proof.
+  unfold read_message_frame.
+  destruct (read_frame _ _ _ _ _) as [[r0 c1] w1].
+  destruct (check_connection_reset r0 (x_state x)) as [r0' s1].
+  unfold on_frame. cbv zeta.
+  head_destruct.
+Qed.
+
+(** ** 8.4 An accepting write side
+   Every write accepts at least max_write_buffer_size bytes (so a whole out_buffer at once), every flush
+   succeeds, and the oracle lists are long enough (an exhausted list would mean WouldBlock). *)
+
+Definition acc_wr (B : N) (o : wr_out) : Prop :=
+  match o with WrAccept n => B <= n | WrErr _ => False end.
+
+Definition wgood (B : N) (a b : nat) (w : world) : Prop :=
+  Forall (acc_wr B) (w_wrs w) /\ Forall (fun o => o = FlOk) (w_fls w) /\
+  (a <= length (w_wrs w))%nat /\ (b <= length (w_fls w))%nat.
+
+(* w' is w after at most a writes and b flushes; the read oracle is untouched *)
+Definition wadv (a b : nat) (w w' : world) : Prop :=
+  w_rds w' = w_rds w /\
+  (exists i, (i <= a)%nat /\ w_wrs w' = skipn i (w_wrs w)) /\
+  (exists j, (j <= b)%nat /\ w_fls w' = skipn j (w_fls w)).
+
+Lemma wadv_refl w : wadv 0 0 w w.
+Proof. split; [reflexivity|]. split; exists 0%nat; split; try lia; reflexivity. Qed.
+
+Lemma skipn_skipn' {A} i : forall (l : list A) i', skipn i' (skipn i l) = skipn (i + i') l.
+Proof.
+  induction i as [|i IH]; intros l i'; [reflexivity|].
+  destruct l as [|y l]; [rewrite !skipn_nil; reflexivity|]. cbn [skipn Nat.add]. apply IH.
+Qed.
+
+Lemma wadv_trans a b a' b' w w' w'' :
+  wadv a b w w' -> wadv a' b' w' w'' -> wadv (a + a') (b + b') w w''.
+Proof.
+  intros [R1 [[i [Hi W1]] [j [Hj F1]]]] [R2 [[i' [Hi' W2]] [j' [Hj' F2]]]].
+  split; [congruence|]. split.
+  - exists (i + i')%nat. split; [lia|]. rewrite W2, W1. apply skipn_skipn'.
+  - exists (j + j')%nat. split; [lia|]. rewrite F2, F1. apply skipn_skipn'.
+Qed.
+
+Lemma wadv_weaken a b a' b' w w' : wadv a b w w' -> (a <= a')%nat -> (b <= b')%nat -> wadv a' b' w w'.
+Proof.
+  intros [R1 [[i [Hi W1]] [j [Hj F1]]]] Ha Hb. split; [exact R1|].
+  split; [exists i|exists j]; split; try lia; assumption.
+Qed.
+
+Lemma Forall_skipn {A} (P : A -> Prop) n : forall l, Forall P l -> Forall P (skipn n l).
+Proof.
+  induction n as [|n IH]; intros l H; [exact H|].
+  destruct l as [|y l]; [exact H|]. cbn [skipn]. apply IH. inversion H; assumption.
+Qed.
+
+Lemma wgood_adv B a b a' b' w w' :
+  wgood B (a + a') (b + b') w -> wadv a b w w' -> wgood B a' b' w'.
+Proof.
+  intros [G1 [G2 [G3 G4]]] [R1 [[i [Hi W1]] [j [Hj F1]]]].
+  unfold wgood. rewrite W1, F1. rewrite !skipn_length.
+  split; [apply Forall_skipn; exact G1|]. split; [apply Forall_skipn; exact G2|]. lia.
+Qed.
+
+Lemma wgood_weaken B a b a' b' w : wgood B a b w -> (a' <= a)%nat -> (b' <= b)%nat -> wgood B a' b' w.
+Proof. intros [G1 [G2 [G3 G4]]] Ha Hb. unfold wgood. repeat split; try assumption; lia. Qed.
+
+Lemma dropN_all {A} (l : list A) : dropN (blen l) l = [].
+Proof. unfold dropN, blen. rewrite Nnat.Nat2N.id. apply skipn_all. Qed.
+
+Lemma wol_nil wrs log : write_out_loop wrs [] log = (ROk tt, [], wrs, log).
+Proof. destruct wrs; reflexivity. Qed.
+
+Lemma wol_acc B out wrs log :
+  blen out <= B -> Forall (acc_wr B) wrs -> (1 <= length wrs)%nat ->
+  exists i log', (i <= 1)%nat /\ write_out_loop wrs out log = (ROk tt, [], skipn i wrs, log').
+Proof.
+  intros Hb Hacc Hlen. destruct out as [|b out'].
+  - exists 0%nat, log. split; [lia|]. apply wol_nil.
+  - destruct wrs as [|o r]; [cbn [length] in Hlen; lia|].
+    inversion Hacc as [|o' r' Ho Hr]; subst. destruct o as [n|k]; [|destruct Ho].
+    cbn [acc_wr] in Ho. cbn [write_out_loop].
+    assert (Hmin : N.min n (blen (b :: out')) = blen (b :: out')) by lia. rewrite Hmin.
+    destruct (blen (b :: out') =? 0) eqn:E0. { unfold blen in E0. cbn [length] in E0. lia. }
+    rewrite dropN_all, wol_nil. exists 1%nat. eexists. split; [lia|]. reflexivity.
+Qed.
+
+Lemma wob_acc B c w :
+  blen (c_out c) <= B -> wgood B 1 0 w ->
+  exists w', write_out_buffer c w = (ROk tt, set_out c [], w') /\ wadv 1 0 w w' /\ w_keys w' = w_keys w.
+Proof.
+  intros Hb [G1 [_ [G3 _]]]. unfold write_out_buffer.
+  destruct (wol_acc B (c_out c) (w_wrs w) (w_log w) Hb G1 G3) as [i [log' [Hi E]]].
+  rewrite E. eexists. split; [reflexivity|]. split; [|reflexivity].
+  split; [reflexivity|]. cbn [w_wrs w_fls]. split; [exists i; auto|]. exists 0%nat. split; [lia|reflexivity].
+Qed.
+
+(* length of what buffer_frame appends *)
+Lemma length_to_be w v : length (to_be w v) = w.
+Proof. revert v. induction w as [|w IH]; intros v; [reflexivity|]. cbn [to_be]. rewrite app_length, IH. cbn. lia. Qed.
+
+Lemma length_xor_cyc bs : forall k, length (xor_cyc k bs) = length bs.
+Proof. induction bs as [|b r IH]; intros k; [reflexivity|]. cbn [xor_cyc length]. rewrite IH. reflexivity. Qed.
+
+Lemma blen_header_format h n : blen (header_format h n) = header_len h n.
+Proof.
+  unfold header_format, header_len, blen. cbv zeta. rewrite !app_length. cbn [length].
+  assert (H1 : length (match lf_for_length n with LU8 _ => [] | LU16 => to_be 2 (n mod 65536) | LU64 => to_be 8 n end)
+               = N.to_nat (lf_extra (lf_for_length n))).
+  { destruct (lf_for_length n); cbn [lf_extra]; rewrite ?length_to_be; reflexivity. }
+  rewrite H1. destruct (h_mask h) as [[[[k0 k1] k2] k3]|]; cbn [key_bytes length]; lia.
+Qed.
+
+Lemma blen_format_into_buf buf f : blen (frame_format_into_buf buf f) = blen buf + frame_len f.
+Proof.
+  unfold frame_format_into_buf, frame_len. cbv zeta.
+  destruct (h_mask (f_hdr f)) as [k|].
+  - unfold apply_mask. unfold blen at 1. rewrite app_length, length_xor_cyc.
+    rewrite <- app_length. rewrite takeN_dropN. fold (blen ((buf ++ header_format (f_hdr f) (blen (f_payload f))) ++ f_payload f)).
+    rewrite !blen_app, blen_header_format. lia.
+  - rewrite !blen_app, blen_header_format. lia.
+Qed.
+
+Lemma cbf_full c f w :
+  c_max_out c <? frame_len f + blen (c_out c) = true ->
+  codec_buffer_frame c f w = (RErr (EWriteBufferFull f), c, w).
+Proof. intros H. unfold codec_buffer_frame. rewrite H. reflexivity. Qed.
+
+Lemma cbf_acc B c f w :
+  c_max_out c = B -> wgood B 1 0 w ->
+  c_max_out c <? frame_len f + blen (c_out c) = false ->
+  exists o' w', codec_buffer_frame c f w = (ROk tt, set_out c o', w') /\ blen o' <= B /\
+                wadv 1 0 w w' /\ w_keys w' = w_keys w.
+Proof.
+  intros HB G Hfull. unfold codec_buffer_frame. rewrite Hfull. cbv zeta.
+  assert (Hlen : blen (frame_format_into_buf (c_out c) f) <= B).
+  { rewrite blen_format_into_buf. lia. }
+  destruct (c_write_len c <? _).
+  - destruct (wob_acc B (set_out c (frame_format_into_buf (c_out c) f)) (w_emit w (EvQueue f)) Hlen G)
+      as [w' [E [Hadv Hk]]].
+    rewrite E. exists [], w'. split; [reflexivity|]. split; [unfold blen; cbn; lia|]. split; assumption.
+  - eexists. eexists. split; [reflexivity|]. split; [exact Hlen|]. split; [|reflexivity].
+    apply (wadv_weaken 0 0); [|lia|lia]. split; [reflexivity|].
+    split; exists 0%nat; split; try lia; reflexivity.
+Qed.
+
+(** ** 8.5 flush and pre_step under an accepting write side are pure functions of the context *)
+
+Definition next_key (w : world) : key := fst (w_next_key w).
+
+(* buffer_frame's masking step *)
+Definition mask_for (r : role) (k : key) (f : frame) : frame :=
+  match r with
+  | Server => f
+  | Client => mkFrame (mkHeader (h_fin (f_hdr f)) (h_rsv1 (f_hdr f)) (h_rsv2 (f_hdr f)) (h_rsv3 (f_hdr f))
+                                (h_opcode (f_hdr f)) (Some k)) (f_payload f)
+  end.
+
+Definition drained (x : ctx) : ctx := set_codec x (set_out (x_codec x) []).
+
+Definition flush_pure (x : ctx) (k : key) : res unit * ctx :=
+  let c := x_codec x in
+  let closing := role_eqb (x_role x) Server && closing_done (x_state x) in
+  match x_additional x with
+  | None =>
+      if closing then (RErr EConnectionClosed, set_state (drained x) Terminated)
+      else (ROk tt, set_unflushed (drained x) false)
+  | Some msg =>
+      let f1 := mask_for (x_role x) k msg in
+      if c_max_out c <? frame_len f1 + blen (c_out c) then
+        (ROk tt, set_unflushed (drained (set_additional_raw x (Some f1))) false)
+      else if closing then (RErr EConnectionClosed, set_state (drained (set_additional_raw x None)) Terminated)
+      else (ROk tt, set_unflushed (drained (set_additional_raw x None)) false)
+  end.
+
+Lemma w_flush_ok w : wgood 0 0 1 w \/ (exists B a, wgood B a 1 w) ->
+  exists w', w_flush w = (ROk tt, w') /\ wadv 0 1 w w' /\ w_keys w' = w_keys w.
+Proof.
+  intros H. assert (G : Forall (fun o => o = FlOk) (w_fls w) /\ (1 <= length (w_fls w))%nat).
+  { destruct H as [[_ [G2 [_ G4]]]|[B [a [_ [G2 [_ G4]]]]]]; auto. }
+  destruct G as [G2 G4]. unfold w_flush. destruct (w_fls w) as [|o r] eqn:E; [cbn in G4; lia|].
+  inversion G2 as [|o' r' Ho Hr]; subst. eexists. split; [reflexivity|]. split; [|reflexivity].
+  split; [reflexivity|]. cbn [w_emit w_set_fls w_wrs w_fls]. split.
+  - exists 0%nat. split; [lia|reflexivity].
+  - exists 1%nat. split; [lia|]. rewrite E. reflexivity.
+Qed.
+
+Lemma buffer_frame_key x f w :
+  buffer_frame x f w =
+  let w1 := match x_role x with Server => w | Client => snd (w_next_key w) end in
+  let '(r, c', w2) := codec_buffer_frame (x_codec x) (mask_for (x_role x) (next_key w) f) w1 in
+  let '(r', s') := check_connection_reset r (x_state x) in
+  (r', set_state (set_codec x c') s', w2).
+Proof.
+  unfold buffer_frame, mask_for, next_key. destruct (x_role x); [reflexivity|].
+  destruct (w_next_key w) as [k w']. reflexivity.
+Qed.
+
+Lemma next_key_world w : let w1 := snd (w_next_key w) in
+  w_rds w1 = w_rds w /\ w_wrs w1 = w_wrs w /\ w_fls w1 = w_fls w.
+Proof. unfold w_next_key. destruct (w_keys w); cbn; auto. Qed.
+
+Ltac ctx_cbn :=
+  cbn [check_connection_reset set_additional set_additional_raw set_state set_codec set_unflushed set_out
+       x_additional x_role x_state x_codec x_unflushed x_incomplete x_cfg
+       c_in c_out c_max_out c_write_len c_hdr fst snd drained].
+
+Lemma flush_acc B x w :
+  c_max_out (x_codec x) = B -> blen (c_out (x_codec x)) <= B -> wgood B 2 1 w ->
+  exists w', flush x w = (fst (flush_pure x (next_key w)), snd (flush_pure x (next_key w)), w') /\
+             wadv 2 1 w w'.
+Proof.
+  intros HB Hout G.
+  destruct x as [role c st inc add unfl cfg]. destruct c as [cin out maxo wl hdr].
+  cbn [x_codec c_max_out c_out] in HB, Hout. subst maxo.
+  assert (Hnil : blen (@nil N) <= B) by (unfold blen; cbn [length]; lia).
+  unfold flush, write_, flush_pure. ctx_cbn.
+  destruct add as [msg|].
+  - rewrite buffer_frame_key. cbv zeta. ctx_cbn.
+    set (w1 := match role with Server => w | Client => snd (w_next_key w) end).
+    assert (G1 : wgood B 2 1 w1).
+    { unfold w1. destruct role; [exact G|]. destruct (next_key_world w) as [_ [A1 A2]].
+      unfold wgood. rewrite A1, A2. exact G. }
+    assert (Hadv1 : wadv 0 0 w w1).
+    { unfold w1. destruct role; [apply wadv_refl|]. destruct (next_key_world w) as [A0 [A1 A2]].
+      split; [exact A0|]. split; exists 0%nat; split; try lia; cbn [skipn]; assumption. }
+    clearbody w1.
+    set (f1 := mask_for role (next_key w) msg). clearbody f1.
+    destruct (B <? frame_len f1 + blen out) eqn:Efull.
+    + rewrite cbf_full by (cbn [c_max_out c_out]; exact Efull). ctx_cbn.
+      rewrite Bool.andb_false_r.
+      match goal with |- context [write_out_buffer ?c ?ww] =>
+        destruct (wob_acc B c ww Hout (wgood_weaken _ _ _ 1 0 _ G1 ltac:(lia) ltac:(lia))) as [w2 [E2 [A2 K2]]] end.
+      rewrite E2.
+      destruct (w_flush_ok w2) as [w3 [E3 [A3 K3]]].
+      { right. exists B, 1%nat. apply (wgood_adv B 1 0 1 1 w1 w2 G1 A2). }
+      rewrite E3. exists w3. split; [reflexivity|].
+      apply (wadv_weaken (0 + (1 + 0)) (0 + (0 + 1))); [|lia|lia].
+      eapply wadv_trans; [exact Hadv1|]. eapply wadv_trans; [exact A2|exact A3].
+    + destruct (cbf_acc B {| c_in := cin; c_out := out; c_max_out := B; c_write_len := wl; c_hdr := hdr |} f1 w1
+                        eq_refl (wgood_weaken _ _ _ 1 0 _ G1 ltac:(lia) ltac:(lia)) Efull)
+        as [o' [w2 [E2 [Ho' [A2 K2]]]]].
+      rewrite E2. ctx_cbn. rewrite Bool.andb_true_r.
+      assert (G2 : wgood B 1 1 w2) by (apply (wgood_adv B 1 0 1 1 w1 w2 G1 A2)).
+      destruct (role_eqb role Server && closing_done st) eqn:Ecl.
+      * match goal with |- context [write_out_buffer ?c ?ww] =>
+          destruct (wob_acc B c ww Ho' (wgood_weaken _ _ _ 1 0 _ G2 ltac:(lia) ltac:(lia))) as [w3 [E3 [A3 K3]]] end.
+        rewrite E3. exists w3. split; [reflexivity|].
+        apply (wadv_weaken (0 + (1 + 1)) (0 + (0 + 0))); [|lia|lia].
+        eapply wadv_trans; [exact Hadv1|]. eapply wadv_trans; [exact A2|exact A3].
+      * ctx_cbn.
+        match goal with |- context [write_out_buffer ?c ?ww] =>
+          destruct (wob_acc B c ww Ho' (wgood_weaken _ _ _ 1 0 _ G2 ltac:(lia) ltac:(lia))) as [w3 [E3 [A3 K3]]] end.
+        rewrite E3.
+        destruct (w_flush_ok w3) as [w4 [E4 [A4 K4]]].
+        { right. exists B, 0%nat. apply (wgood_adv B 1 0 0 1 w2 w3 G2 A3). }
+        rewrite E4. exists w4. split; [reflexivity|].
+        apply (wadv_weaken (0 + (1 + (1 + 0))) (0 + (0 + (0 + 1)))); [|lia|lia].
+        eapply wadv_trans; [exact Hadv1|]. eapply wadv_trans; [exact A2|].
+        eapply wadv_trans; [exact A3|exact A4].
+  - rewrite Bool.andb_true_r. ctx_cbn.
+    destruct (role_eqb role Server && closing_done st) eqn:Ecl.
+    + ctx_cbn. match goal with |- context [write_out_buffer ?c ?ww] =>
+        destruct (wob_acc B c ww Hout (wgood_weaken _ _ _ 1 0 _ G ltac:(lia) ltac:(lia))) as [w3 [E3 [A3 K3]]] end.
+      rewrite E3. exists w3. split; [reflexivity|]. apply (wadv_weaken 1 0); [exact A3|lia|lia].
+    + ctx_cbn.
+      match goal with |- context [write_out_buffer ?c ?ww] =>
+        destruct (wob_acc B c ww Hout (wgood_weaken _ _ _ 1 0 _ G ltac:(lia) ltac:(lia))) as [w3 [E3 [A3 K3]]] end.
+      rewrite E3.
+      destruct (w_flush_ok w3) as [w4 [E4 [A4 K4]]].
+      { right. exists B, 1%nat. apply (wgood_adv B 1 0 1 1 w w3 G A3). }
+      rewrite E4. exists w4. split; [reflexivity|].
+      apply (wadv_weaken (1 + 0) (0 + 1)); [|lia|lia]. eapply wadv_trans; [exact A3|exact A4].
+Qed.
+
+Lemma flush_pure_res x k :
+  fst (flush_pure x k) = ROk tt \/ fst (flush_pure x k) = RErr EConnectionClosed.
+Proof.
+  unfold flush_pure. cbv zeta. destruct (x_additional x).
+  - destruct (_ <? _); [left; reflexivity|]. destruct (_ && _); [right|left]; reflexivity.
+  - destruct (_ && _); [right|left]; reflexivity.
+Qed.
+
+Definition pre_pure (x : ctx) (k : key) : res unit * ctx :=
+  if (match x_additional x with Some _ => true | None => false end) || x_unflushed x then flush_pure x k
+  else if role_eqb (x_role x) Server && negb (can_read (x_state x)) then
+    (RErr EConnectionClosed, set_state (drained x) Terminated)
+  else (ROk tt, x).
+
+Lemma pre_pure_res x k :
+  fst (pre_pure x k) = ROk tt \/ fst (pre_pure x k) = RErr EConnectionClosed.
+Proof.
+  unfold pre_pure. destruct (_ || _); [apply flush_pure_res|].
+  destruct (_ && _); [right|left]; reflexivity.
+Qed.
+
+Lemma pre_step_acc B x w :
+  c_max_out (x_codec x) = B -> blen (c_out (x_codec x)) <= B -> wgood B 2 1 w ->
+  exists w', pre_step x w = (fst (pre_pure x (next_key w)), snd (pre_pure x (next_key w)), w') /\
+             wadv 2 1 w w'.
+Proof.
+  intros HB Hout G. unfold pre_step, pre_pure.
+  destruct (_ || _).
+  - destruct (flush_acc B x w HB Hout G) as [w' [E A]]. rewrite E. exists w'. split; [|exact A].
+    destruct (flush_pure_res x (next_key w)) as [R|R]; rewrite R; reflexivity.
+  - destruct (_ && _).
+    + destruct (wob_acc B (x_codec x) w Hout (wgood_weaken _ _ _ 1 0 _ G ltac:(lia) ltac:(lia)))
+        as [w' [E [A K]]].
+      rewrite E. exists w'. split; [reflexivity|]. apply (wadv_weaken 1 0); [exact A|lia|lia].
+    + exists w. split; [reflexivity|]. apply (wadv_weaken 0 0); [apply wadv_refl|lia|lia].
+Qed.
+
+(* what a successful pre_step leaves unchanged *)
+Lemma pre_pure_ok_keeps x k x' :
+  pre_pure x k = (ROk tt, x') ->
+  x_role x' = x_role x /\ x_cfg x' = x_cfg x /\ x_state x' = x_state x /\ x_incomplete x' = x_incomplete x /\
+  c_in (x_codec x') = c_in (x_codec x) /\ c_hdr (x_codec x') = c_hdr (x_codec x) /\
+  c_max_out (x_codec x') = c_max_out (x_codec x) /\ c_write_len (x_codec x') = c_write_len (x_codec x) /\
+  (c_out (x_codec x) = [] -> c_out (x_codec x') = []).
+Proof.
+  unfold pre_pure, flush_pure. cbv zeta.
+  destruct (_ || _).
+  - destruct (x_additional x).
+    + destruct (_ <? _).
+      * intros E. injection E as <-. cbn. auto 10.
+      * destruct (_ && _); [discriminate|]. intros E. injection E as <-. cbn. auto 10.
+    + destruct (_ && _); [discriminate|]. intros E. injection E as <-. cbn. auto 10.
+  - destruct (_ && _); [discriminate|]. intros E. injection E as <-. auto 10.
+Qed.
+
+(** ** 8.6 What reading cannot observe: the mask key of a parked reply, the codec's read side *)
+
+Definition strip_frame (f : frame) : frame :=
+  mkFrame (mkHeader (h_fin (f_hdr f)) (h_rsv1 (f_hdr f)) (h_rsv2 (f_hdr f)) (h_rsv3 (f_hdr f))
+                    (h_opcode (f_hdr f)) None) (f_payload f).
+
+Definition strip_add (r : role) (a : option frame) : option frame :=
+  match r, a with
+  | Client, Some f => Some (strip_frame f)
+  | _, _ => a
+  end.
+
+Definition canon (x : ctx) : ctx :=
+  mkCtx (x_role x)
+        (mkCodec [] (c_out (x_codec x)) (c_max_out (x_codec x)) (c_write_len (x_codec x)) None)
+        (x_state x) (x_incomplete x) (strip_add (x_role x) (x_additional x)) (x_unflushed x) (x_cfg x).
+
+Lemma frame_len_mask_for_client k k' f f' :
+  f_payload f = f_payload f' ->
+  frame_len (mask_for Client k f) = frame_len (mask_for Client k' f').
+Proof. intros H. unfold frame_len, mask_for, header_len. cbn [f_hdr f_payload h_mask]. rewrite H. reflexivity. Qed.
+
+Lemma canon_mask_client x k f :
+  x_role x = Client ->
+  canon (set_additional_raw x (Some (mask_for Client k f))) = canon (set_additional_raw x (Some f)).
+Proof. intros H. unfold canon. cbn [x_role set_additional_raw x_additional x_codec x_state x_incomplete x_unflushed x_cfg]. rewrite H. reflexivity. Qed.
+
+(* pre_pure does not depend on what canon forgets *)
+Lemma pre_pure_canon x k k' :
+  fst (pre_pure (canon x) k') = fst (pre_pure x k) /\
+  canon (snd (pre_pure (canon x) k')) = canon (snd (pre_pure x k)).
+Proof.
+  destruct x as [role c st inc add unfl cfg]. destruct c as [cin out maxo wl hdr].
+  unfold pre_pure, flush_pure, canon. cbv zeta.
+  cbn [x_role x_codec x_state x_incomplete x_additional x_unflushed x_cfg c_in c_out c_max_out c_write_len c_hdr].
+  destruct role.
+  - (* Server: nothing is stripped *)
+    cbn [strip_add mask_for]. destruct add as [msg|]; cbn [orb].
+    + destruct (maxo <? _); [split; reflexivity|]. destruct (_ && _); split; reflexivity.
+    + destruct unfl; cbn [orb].
+      * destruct (_ && _); split; reflexivity.
+      * destruct (_ && _); split; reflexivity.
+  - cbn [role_eqb andb]. destruct add as [msg|]; cbn [strip_add orb].
+    + rewrite (frame_len_mask_for_client k' k (strip_frame msg) msg eq_refl).
+      destruct (maxo <? _); split; reflexivity.
+    + destruct unfl; split; reflexivity.
+Qed.
+
+Lemma canon_idem x : canon (canon x) = canon x.
+Proof.
+  unfold canon. cbn [x_role x_codec x_state x_incomplete x_additional x_unflushed x_cfg c_in c_out c_max_out c_write_len c_hdr].
+  destruct (x_role x); [reflexivity|]. destruct (x_additional x); reflexivity.
+Qed.
+
+Lemma pre_pure_canon2 x y k k' :
+  canon x = canon y ->
+  fst (pre_pure x k) = fst (pre_pure y k') /\ canon (snd (pre_pure x k)) = canon (snd (pre_pure y k')).
+Proof.
+  intros H. destruct (pre_pure_canon x k k) as [A1 A2]. destruct (pre_pure_canon y k' k) as [B1 B2].
+  rewrite H in A1, A2. split; congruence.
+Qed.
+
+(* a second pre_step right after a successful one changes nothing that reading can observe *)
+Lemma pre_pure_idem x k k' x' :
+  c_out (x_codec x) = [] -> x_state x <> Terminated ->
+  pre_pure x k = (ROk tt, x') ->
+  fst (pre_pure x' k') = ROk tt /\ canon (snd (pre_pure x' k')) = canon x'.
+Proof.
+  destruct x as [role c st inc add unfl cfg]. destruct c as [cin out maxo wl hdr].
+  cbn [x_codec c_out x_state]. intros -> Hst.
+  unfold pre_pure at 1. unfold flush_pure. cbv zeta.
+  cbn [x_role x_codec x_state x_incomplete x_additional x_unflushed x_cfg c_in c_out c_max_out c_write_len c_hdr].
+  assert (Hterm : role_eqb role Server && closing_done st = false ->
+                  role_eqb role Server && negb (can_read st) = false).
+  { intros H. destruct role; [|reflexivity]. destruct st; cbn in *; try discriminate; try reflexivity.
+    exfalso. apply Hst. reflexivity. }
+  destruct add as [msg|]; cbn [orb].
+  - destruct (maxo <? frame_len (mask_for role k msg) + blen (@nil N)) eqn:Efull.
+    + intros E. injection E as <-.
+      unfold pre_pure, flush_pure, drained. cbv zeta.
+      cbn [set_unflushed set_codec set_additional_raw set_out x_role x_codec x_state x_incomplete x_additional x_unflushed x_cfg c_in c_out c_max_out c_write_len c_hdr orb].
+      assert (Efull' : maxo <? frame_len (mask_for role k' (mask_for role k msg)) + blen (@nil N) = true).
+      { destruct role; [exact Efull|].
+        rewrite (frame_len_mask_for_client k' k (mask_for Client k msg) msg eq_refl). exact Efull. }
+      rewrite Efull'. cbn [fst snd]. split; [reflexivity|].
+      destruct role; [reflexivity|]. unfold canon. reflexivity.
+    + destruct (role_eqb role Server && closing_done st) eqn:Ecl; [discriminate|].
+      intros E. injection E as <-.
+      unfold pre_pure, drained.
+      cbn [set_unflushed set_codec set_additional_raw set_out x_role x_codec x_state x_incomplete x_additional x_unflushed x_cfg c_in c_out c_max_out c_write_len c_hdr orb].
+      rewrite (Hterm eq_refl). split; reflexivity.
+  - destruct unfl; cbn [orb].
+    + destruct (role_eqb role Server && closing_done st) eqn:Ecl; [discriminate|].
+      intros E. injection E as <-.
+      unfold pre_pure, drained.
+      cbn [set_unflushed set_codec set_additional_raw set_out x_role x_codec x_state x_incomplete x_additional x_unflushed x_cfg c_in c_out c_max_out c_write_len c_hdr orb].
+      rewrite (Hterm eq_refl). split; reflexivity.
+    + destruct (role_eqb role Server && negb (can_read st)) eqn:Ecl; [discriminate|].
+      intros E. injection E as <-.
+      unfold pre_pure.
+      cbn [x_role x_codec x_state x_incomplete x_additional x_unflushed x_cfg orb].
+      rewrite Ecl. split; reflexivity.
+Qed.
+
+(** ** 8.7 Facts about on_frame *)
+
+Ltac head_scrut t :=
+  match t with
+  | (if ?b then _ else _) => head_scrut b
+  | (match ?u with _ => _ end) => head_scrut u
+  | _ => t
+  end.
+
+Ltac lhs_destruct :=
+  repeat (match goal with
+          | |- ?lhs = _ => let s := head_scrut lhs in
+                           match lhs with
+                           | (if _ then _ else _) => destruct s
+                           | (match _ with _ => _ end) => destruct s
+                           end
+          end; try reflexivity).
+
+Lemma set_additional_canon x f :
+  h_mask (f_hdr f) = None ->
+  canon (set_additional x f) = set_additional (canon x) f.
+Proof.
+  intros Hm. destruct x as [role c st inc add unfl cfg]. unfold set_additional, canon.
+  cbn [x_role x_codec x_state x_incomplete x_additional x_unflushed x_cfg].
+  destruct role; cbn [strip_add].
+  - destruct add as [fa|]; [|reflexivity]. destruct (opcode_eqb _ _); reflexivity.
+  - destruct add as [fa|].
+    + cbn [strip_frame f_hdr h_opcode]. destruct (opcode_eqb _ _); cbn; [|reflexivity].
+      unfold strip_frame. destruct f as [[fin r1 r2 r3 opc m] p]. cbn in Hm. subst m. reflexivity.
+    + cbn. unfold strip_frame. destruct f as [[fin r1 r2 r3 opc m] p]. cbn in Hm. subst m. reflexivity.
+Qed.
+
+Lemma on_frame_canon x r :
+  on_frame (canon x) r = (fst (on_frame x r), canon (snd (on_frame x r))).
+Proof.
+  destruct x as [role c st inc add unfl cfg].
+  unfold on_frame, do_close. cbv zeta.
+  cbn [canon x_role x_codec x_state x_incomplete x_additional x_unflushed x_cfg].
+  lhs_destruct.
+  all: cbn [fst snd].
+  - f_equal. symmetry.
+    apply (set_additional_canon (set_state (mkCtx role c Active inc add unfl cfg) ClosedByPeer)). reflexivity.
+  - destruct (is_active st); [|reflexivity]. f_equal. symmetry.
+    apply (set_additional_canon (mkCtx role c st inc add unfl cfg)). reflexivity.
+Qed.
+
+Lemma on_frame_canon2 x y r :
+  canon x = canon y ->
+  fst (on_frame x r) = fst (on_frame y r) /\ canon (snd (on_frame x r)) = canon (snd (on_frame y r)).
+Proof.
+  intros H. pose proof (on_frame_canon x r) as A. pose proof (on_frame_canon y r) as B.
+  rewrite H in A. rewrite A in B. split; [exact (f_equal fst B)|exact (f_equal snd B)].
+Qed.
+
+Definition is_ok {A} (r : res A) : bool := match r with ROk _ => true | _ => false end.
+
+Ltac scrut_destruct :=
+  repeat (match goal with
+          | |- match ?t with _ => _ end =>
+              let s := head_scrut t in
+              match t with
+              | (if _ then _ else _) => destruct s
+              | (match _ with _ => _ end) => destruct s
+              end
+          end; cbn [fst snd is_ok]).
+
+Lemma set_additional_proj x f :
+  x_codec (set_additional x f) = x_codec x /\ x_role (set_additional x f) = x_role x /\
+  x_cfg (set_additional x f) = x_cfg x /\ x_state (set_additional x f) = x_state x.
+Proof.
+  unfold set_additional. destruct (x_additional x) as [fa|]; [destruct (opcode_eqb _ _)|]; cbn; auto.
+Qed.
+
+(* on_frame never touches the codec, the role or the configuration; a result that is not an error
+   comes from a frame and does not terminate the connection *)
+Lemma on_frame_keeps x r :
+  let '(rm, x2) := on_frame x r in
+  x_codec x2 = x_codec x /\ x_role x2 = x_role x /\ x_cfg x2 = x_cfg x /\
+  (is_ok rm = true -> (exists f, r = ROk (Some f)) /\ x_state x2 <> Terminated).
+Proof.
+  destruct x as [role c st inc add unfl cfg].
+  unfold on_frame, do_close. cbv zeta.
+  cbn [x_role x_codec x_state x_incomplete x_additional x_unflushed x_cfg].
+  destruct st; cbn [can_read negb is_active]; scrut_destruct;
+    repeat match goal with
+           | |- context [set_additional ?y ?g] =>
+               let P := fresh "P" in
+               pose proof (set_additional_proj y g) as P; destruct P as [? [? [? ?]]];
+               generalize dependent (set_additional y g); intros
+           end;
+    cbn [x_role x_codec x_state x_incomplete x_additional x_unflushed x_cfg set_state set_incomplete] in *;
+    (split; [try assumption; reflexivity|]); (split; [try assumption; reflexivity|]);
+    (split; [try assumption; reflexivity|]);
+    (intros Hok; first [discriminate Hok | split; [eexists; reflexivity|]; first [discriminate | congruence]]).
+Qed.
+
+(* an error produced from a frame is never an I/O error (in particular never WouldBlock) *)
+Definition err_io (e : error) : bool := match e with EIo _ => true | _ => false end.
+Definition res_io {A} (r : res A) : bool := match r with RErr e => err_io e | _ => false end.
+
+Lemma incmsg_extend_io m t l : res_io (fst (incmsg_extend m t l)) = false.
+Proof.
+  unfold incmsg_extend. cbv zeta. destruct (_ || _).
+  - destruct (two64 <=? _); reflexivity.
+  - destruct m as [c|v]; [destruct (collector_extend c t)|]; reflexivity.
+Qed.
+
+Lemma incmsg_complete_io m : res_io (incmsg_complete m) = false.
+Proof. destruct m as [c|v]; cbn [incmsg_complete]; [destruct (collector_into_string c)|]; reflexivity. Qed.
+
+Lemma check_max_size_io n l : res_io (check_max_size n l) = false.
+Proof. unfold check_max_size. destruct l as [m|]; [destruct (m <? n)|]; reflexivity. Qed.
+
+Lemma frame_into_close_io p : res_io (frame_into_close p) = false.
+Proof. unfold frame_into_close. destruct p as [|a [|b r]]; try reflexivity. destruct (is_utf8 r); reflexivity. Qed.
+
+Lemma on_frame_frame_io x f : res_io (fst (on_frame x (ROk (Some f)))) = false.
+Proof.
+  destruct x as [role c st inc add unfl cfg].
+  unfold on_frame, do_close. cbv zeta.
+  cbn [x_role x_codec x_state x_incomplete x_additional x_unflushed x_cfg].
+  repeat (match goal with
+          | |- res_io (fst ?t) = false =>
+              let s := head_scrut t in
+              match t with
+              | (if _ then _ else _) => idtac
+              | (match _ with _ => _ end) => idtac
+              end;
+              first [ match s with incmsg_extend ?a ?b ?c => pose proof (incmsg_extend_io a b c) end
+                    | match s with incmsg_complete ?a => pose proof (incmsg_complete_io a) end
+                    | match s with check_max_size ?a ?b => pose proof (check_max_size_io a b) end
+                    | match s with frame_into_close ?a => pose proof (frame_into_close_io a) end
+                    | idtac ];
+              destruct s
+          end; cbn [fst snd res_io err_io] in *);
+    first [reflexivity | assumption].
+Qed.
+
+Lemma res_io_wb {A} (r : res A) : res_io r = false -> r <> RErr (EIo WouldBlock).
+Proof. intros H ->. discriminate H. Qed.
+
+(** ** 8.8 More about one read_frame_loop call: the write-side fields, the fuel of read's loop *)
+
+(* at rest a held header is still waiting for payload bytes (true of every reachable codec state:
+   a zero-length payload is split off in the same iteration that parses the header) *)
+Definition codec_rest (c : codec) : Prop :=
+  match c_hdr c with Some (_, len) => blen (c_in c) < len | None => True end.
+Definition codec_pos (c : codec) : Prop :=
+  match c_hdr c with Some (_, len) => 0 < len | None => True end.
+Definition wfields (c' c : codec) : Prop :=
+  c_out c' = c_out c /\ c_max_out c' = c_max_out c /\ c_write_len c' = c_write_len c.
+Definition bytes_left (c : codec) (rds : list rd_out) : nat := (length (c_in c) + rd_bytes rds)%nat.
+
+Lemma codec_rest_pos c : codec_rest c -> codec_pos c.
+Proof. unfold codec_rest, codec_pos. destruct (c_hdr c) as [[h len]|]; [lia|auto]. Qed.
+
+Lemma try_take_rest max c :
+  codec_pos c ->
+  match try_take max c with
+  | TkPayload _ _ _ c' => codec_rest c' /\ (length (c_in c') < length (c_in c))%nat /\ wfields c' c
+  | TkNeedMore _ c' => codec_rest c' /\ (length (c_in c') <= length (c_in c))%nat /\ wfields c' c
+  | TkErr _ c' => wfields c' c
+  | TkPanic _ => True
+  end.
+Proof.
+  intros Hpos. rewrite try_take_eq. unfold held, codec_pos, codec_rest, wfields in *.
+  destruct (c_hdr c) as [[h len]|] eqn:Hh.
+  - destruct (max <? len); [auto|]. destruct (len <=? blen (c_in c)) eqn:El;
+      cbn [c_hdr c_in c_out c_max_out c_write_len set_hdr set_in].
+    + split; [exact I|]. split; [|auto]. rewrite length_dropN. unfold blen in El. lia.
+    + rewrite Hh. split; [lia|]. split; [lia|auto].
+  - destruct (header_parse (c_in c)) as [h len k| |i|] eqn:Hp; try exact I.
+    + destruct (hp_ok _ _ _ _ Hp) as [Hk _].
+      cbn [c_hdr c_in c_out c_max_out c_write_len set_hdr set_in].
+      destruct (max <? len); [auto|]. unfold blen in Hk.
+      destruct (len <=? blen (dropN k (c_in c))) eqn:El;
+        cbn [c_hdr c_in c_out c_max_out c_write_len set_hdr set_in].
+      * split; [exact I|]. split; [|auto]. rewrite !length_dropN. lia.
+      * split; [lia|]. split; [|auto]. rewrite length_dropN. lia.
+    + rewrite Hh. split; [exact I|]. split; [lia|auto].
+    + auto.
+Qed.
+
+Lemma rfl_rest max : forall rds c r c' rds',
+  codec_pos c -> rfl max rds c = (r, c', rds') ->
+  wfields c' c /\
+  match classify r with
+  | KFrame => codec_rest c' /\ (bytes_left c' rds' < bytes_left c rds)%nat
+  | KWB => codec_rest c' /\ (bytes_left c' rds' <= bytes_left c rds)%nat
+  | KStop => True
+  end.
+Proof.
+  induction rds as [|o rest IH]; intros c r c' rds' Hpos E; rewrite rfl_eq in E;
+    pose proof (try_take_rest max c Hpos) as Ht;
+    destruct (try_take max c) as [h len p c1|n c1|e c1|s] eqn:Et.
+  - injection E as <- <- <-. destruct Ht as [T1 [T2 T3]]. split; [exact T3|].
+    cbn [classify]. split; [exact T1|]. unfold bytes_left. lia.
+  - injection E as <- <- <-. destruct Ht as [T1 [T2 T3]]. split; [exact T3|].
+    cbn [classify]. split; [exact T1|]. unfold bytes_left. lia.
+  - injection E as <- <- <-. split; [exact Ht|].
+    rewrite (classify_err_not_io e (try_take_err_not_io _ _ _ _ Et)). exact I.
+  - injection E as <- <- <-. split; [unfold wfields; auto|]. exact I.
+  - injection E as <- <- <-. destruct Ht as [T1 [T2 T3]]. split; [exact T3|].
+    cbn [classify]. split; [exact T1|]. unfold bytes_left. cbn [rd_bytes]. lia.
+  - destruct Ht as [T1 [T2 T3]]. destruct o as [[|b bs]| |k].
+    + injection E as <- <- <-. split; [exact T3|]. exact I.
+    + assert (Hpos2 : codec_pos (set_in c1 (c_in c1 ++ b :: bs))).
+      { unfold codec_pos, codec_rest in *. cbn [c_hdr c_in set_in].
+        destruct (c_hdr c1) as [[h len]|]; [lia|exact I]. }
+      destruct (IH _ _ _ _ Hpos2 E) as [F M]. split.
+      * unfold wfields in *. cbn [c_out c_max_out c_write_len set_in] in F.
+        destruct F as [F1 [F2 F3]]. destruct T3 as [G1 [G2 G3]]. rewrite F1, F2, F3. auto.
+      * assert (Hb : (bytes_left (set_in c1 (c_in c1 ++ b :: bs)) rest <= bytes_left c (RdData (b :: bs) :: rest))%nat).
+        { unfold bytes_left. cbn [c_in set_in rd_bytes]. rewrite app_length. lia. }
+        destruct (classify r); [| |exact I]; destruct M as [M1 M2]; (split; [exact M1|lia]).
+    + injection E as <- <- <-. split; [exact T3|]. exact I.
+    + injection E as <- <- <-. split; [exact T3|]. destruct k; cbn [classify]; try exact I.
+      split; [exact T1|]. unfold bytes_left. cbn [rd_bytes]. lia.
+  - injection E as <- <- <-. split; [exact Ht|].
+    rewrite (classify_err_not_io e (try_take_err_not_io _ _ _ _ Et)). exact I.
+  - injection E as <- <- <-. split; [unfold wfields; auto|]. exact I.
+Qed.
+
+(** ** 8.9 The message-level reference machine
+   It runs on the list of read_frame results given by the frame-level reference: before every item it
+   performs the pre-step (as a pure function: accepting write side), then feeds the item to on_frame. *)
+
+Definition zero_key : key := (0, 0, 0, 0).
+
+Definition mrest_with (cont : ctx -> list (res message)) (y0 : ctx) (r : res (option frame))
+  : list (res message) :=
+  let '(r', s1) := check_connection_reset r (x_state y0) in
+  let '(rm, y2) := on_frame (set_state y0 s1) r' in
+  match rm with
+  | ROk (Some m) => ROk m :: cont y2
+  | ROk None => cont y2
+  | RErr e => [RErr e]
+  | RPanic s => [RPanic s]
+  | ROutOfFuel => [ROutOfFuel]
+  end.
+
+Definition mpre (k : ctx -> list (res message)) (y : ctx) : list (res message) :=
+  let '(r0, y0) := pre_pure y zero_key in
+  match r0 with
+  | ROk _ => k y0
+  | RErr e => [RErr e]
+  | RPanic s => [RPanic s]
+  | ROutOfFuel => [ROutOfFuel]
+  end.
+
+Fixpoint mloop (fr : list (res (option frame))) (y : ctx) : list (res message) :=
+  mpre (fun y0 => match fr with [] => [] | r :: rest => mrest_with (mloop rest) y0 r end) y.
+
+Definition mrest (fr : list (res (option frame))) (y0 : ctx) : list (res message) :=
+  match fr with [] => [] | r :: rest => mrest_with (mloop rest) y0 r end.
+
+Lemma mloop_eq fr y : mloop fr y = mpre (mrest fr) y.
+Proof. destruct fr; reflexivity. Qed.
+
+Lemma canon_state x y : canon x = canon y -> x_state x = x_state y.
+Proof. intros H. exact (f_equal x_state H). Qed.
+
+Lemma canon_set_state x y s : canon x = canon y -> canon (set_state x s) = canon (set_state y s).
+Proof.
+  intros H. change (canon (set_state x s)) with (set_state (canon x) s).
+  change (canon (set_state y s)) with (set_state (canon y) s). rewrite H. reflexivity.
+Qed.
+
+Lemma mrest_with_canon cont a b r :
+  (forall u v, canon u = canon v -> cont u = cont v) ->
+  canon a = canon b -> mrest_with cont a r = mrest_with cont b r.
+Proof.
+  intros Hc H. unfold mrest_with. rewrite (canon_state _ _ H).
+  destruct (check_connection_reset r (x_state b)) as [r' s1].
+  destruct (on_frame_canon2 _ _ r' (canon_set_state a b s1 H)) as [A1 A2].
+  destruct (on_frame (set_state a s1) r') as [rm y2]. destruct (on_frame (set_state b s1) r') as [rm' y2'].
+  cbn [fst snd] in A1, A2. subst rm'. destruct rm as [[m|]|e|s|]; try reflexivity.
+  - f_equal. apply Hc. exact A2.
+  - apply Hc. exact A2.
+Qed.
+
+Lemma mloop_canon : forall fr u v, canon u = canon v -> mloop fr u = mloop fr v.
+Proof.
+  induction fr as [|r rest IH]; intros u v H; rewrite !mloop_eq; unfold mpre;
+    destruct (pre_pure_canon2 u v zero_key zero_key H) as [A1 A2];
+    destruct (pre_pure u zero_key) as [r0 y0]; destruct (pre_pure v zero_key) as [r0' y0'];
+    cbn [fst snd] in A1, A2; subst r0'; destruct r0; try reflexivity.
+  cbn [mrest]. apply mrest_with_canon; [exact IH|exact A2].
+Qed.
+
+Lemma mrest_canon fr a b : canon a = canon b -> mrest fr a = mrest fr b.
+Proof.
+  intros H. destruct fr as [|r rest]; [reflexivity|]. cbn [mrest].
+  apply mrest_with_canon; [apply mloop_canon|exact H].
+Qed.
+
+(* the frame-level view of a context in front of a schedule *)
+Definition fview (x : ctx) (w : world) : list (res (option frame)) :=
+  frames_ref (cfg_max_frame_size (x_cfg x)) (role_eqb (x_role x) Server) (cfg_accept_unmasked (x_cfg x))
+             (c_hdr (x_codec x)) (c_in (x_codec x) ++ sched_data (w_rds w)) (sched_end (w_rds w)).
+
+Lemma fview_sview x w :
+  fview x w = finish (role_eqb (x_role x) Server) (cfg_accept_unmasked (x_cfg x))
+                     (sview (limit_of (cfg_max_frame_size (x_cfg x))) (x_codec x) (w_rds w)).
+Proof. unfold fview, frames_ref, sview, view. rewrite sched_term_end. reflexivity. Qed.
+
+Definition coerce (r : res (option message)) : res message :=
+  match r with RErr e => RErr e | RPanic s => RPanic s | _ => ROutOfFuel end.
+
+Lemma classify_frame {A} (r : res (option A)) : classify r = KFrame -> exists v, r = ROk (Some v).
+Proof. destruct r as [[v|]|e|s|]; try discriminate; [eexists; reflexivity|]. destruct e as [| |[]| | | |]; discriminate. Qed.
+
+Lemma classify_wb {A} (r : res (option A)) : classify r = KWB -> r = RErr (EIo WouldBlock).
+Proof. destruct r as [[v|]|e|s|]; try discriminate. destruct e as [| |[]| | | |]; try discriminate. reflexivity. Qed.
+
+Lemma classify_stop {A} (r : res (option A)) :
+  classify r = KStop -> (forall v, r <> ROk (Some v)) /\ r <> RErr (EIo WouldBlock).
+Proof.
+  destruct r as [[v|]|e|s|]; try discriminate; intros H; split; try discriminate.
+  intros X. injection X as ->. discriminate H.
+Qed.
+
+Lemma ccr_nonframe {A} (r r' : res (option A)) st s1 :
+  check_connection_reset r st = (r', s1) ->
+  (forall f, r <> ROk (Some f)) -> r <> RErr (EIo WouldBlock) ->
+  (forall f, r' <> ROk (Some f)) /\ r' <> RErr (EIo WouldBlock).
+Proof.
+  unfold check_connection_reset. intros E Hnf Hwb.
+  destruct r as [v|e|s|]; try (injection E as <- <-; auto).
+  destruct e as [| |k| | | |]; try (injection E as <- <-; auto).
+  destruct k; try (injection E as <- <-; auto).
+  destruct (closing_done st); injection E as <- <-; auto. split; discriminate.
+Qed.
+
+Lemma on_frame_nonframe x r :
+  (forall f, r <> ROk (Some f)) -> r <> RErr (EIo WouldBlock) ->
+  is_ok (fst (on_frame x r)) = false /\ fst (on_frame x r) <> RErr (EIo WouldBlock).
+Proof.
+  intros Hnf Hwb. destruct r as [[f|]|e|s|].
+  - exfalso. exact (Hnf f eq_refl).
+  - unfold on_frame. cbv zeta. destruct (x_state x); cbn [fst is_ok]; split; try reflexivity; discriminate.
+  - cbn [on_frame fst is_ok]. split; [reflexivity|]. intros X. apply Hwb. injection X as ->. reflexivity.
+  - cbn [on_frame fst is_ok]. split; [reflexivity|discriminate].
+  - cbn [on_frame fst is_ok]. split; [reflexivity|discriminate].
+Qed.
+
+(* an item that is not a frame ends the run with an error, the same for all contexts that reading
+   cannot tell apart *)
+Lemma mrest_with_nonframe cont x0 xa r0 :
+  (forall f, r0 <> ROk (Some f)) -> r0 <> RErr (EIo WouldBlock) -> canon xa = canon x0 ->
+  forall r0' s1 rm x2,
+    check_connection_reset r0 (x_state xa) = (r0', s1) ->
+    on_frame (set_state xa s1) r0' = (rm, x2) ->
+    mrest_with cont x0 r0 = [coerce rm] /\ is_ok rm = false /\ rm <> RErr (EIo WouldBlock).
+Proof.
+  intros Hnf Hwb Hc r0' s1 rm x2 Ec Eo.
+  unfold mrest_with. rewrite <- (canon_state _ _ Hc), Ec.
+  destruct (ccr_nonframe _ _ _ _ Ec Hnf Hwb) as [Hnf' Hwb'].
+  destruct (on_frame_canon2 _ _ r0' (canon_set_state xa x0 s1 Hc)) as [A1 _].
+  destruct (on_frame_nonframe (set_state xa s1) r0' Hnf' Hwb') as [B1 B2].
+  rewrite Eo in A1, B1, B2. cbn [fst] in A1, B1, B2.
+  destruct (on_frame (set_state x0 s1) r0') as [rm' y2]. cbn [fst] in A1. subst rm'.
+  split; [|split; assumption].
+  destruct rm as [[m|]|e|s|]; try discriminate B1; reflexivity.
+Qed.
+
+Definition xmu (x : ctx) (w : world) : nat := mu (x_codec x) (w_rds w).
+Definition xbytes (x : ctx) (w : world) : nat := bytes_left (x_codec x) (w_rds w).
+
+(* read_message_frame against the view *)
+Lemma rmf_view x0 w0 r1 x1 w1 :
+  codec_rest (x_codec x0) -> x_state x0 <> Terminated ->
+  read_message_frame x0 w0 = (r1, x1, w1) ->
+  let V := fview x0 w0 in
+  w_wrs w1 = w_wrs w0 /\ w_fls w1 = w_fls w0 /\ wfields (x_codec x1) (x_codec x0) /\
+  ((exists om, r1 = ROk om /\
+      mrest V x0 = (match om with Some m => [ROk m] | None => [] end) ++ mloop (fview x1 w1) x1 /\
+      codec_rest (x_codec x1) /\ x_state x1 <> Terminated /\
+      (xmu x1 w1 < xmu x0 w0)%nat /\ (xbytes x1 w1 < xbytes x0 w0)%nat)
+   \/ (r1 = RErr (EIo WouldBlock) /\ fview x1 w1 = V /\ canon x1 = canon x0 /\
+       codec_rest (x_codec x1) /\ x_state x1 = x_state x0 /\
+       (w_rds w1 = [] -> V = []) /\ (w_rds w1 <> [] -> (xmu x1 w1 < xmu x0 w0)%nat))
+   \/ (is_ok r1 = false /\ r1 <> RErr (EIo WouldBlock) /\ mrest V x0 = [coerce r1])).
+Proof.
+  intros Hrest Hst E V.
+  rewrite read_message_frame_eq, read_frame_eq in E.
+  set (u := role_eqb (x_role x0) Server) in *. set (a := cfg_accept_unmasked (x_cfg x0)) in *.
+  set (max := limit_of (cfg_max_frame_size (x_cfg x0))) in *.
+  destruct (rfl max (w_rds w0) (x_codec x0)) as [[rr c1] rds1] eqn:Er.
+  pose proof (rfl_sview max _ _ _ _ _ Er) as Hv.
+  destruct (rfl_rest max _ _ _ _ _ (codec_rest_pos _ Hrest) Er) as [Hf Hr].
+  assert (HV : V = finish u a (sview max (x_codec x0) (w_rds w0))) by apply fview_sview.
+  destruct (check_connection_reset (post_frame u a rr) (x_state x0)) as [r0' s1] eqn:Ec.
+  set (xa := set_state (set_codec x0 c1) s1) in *.
+  destruct (on_frame xa r0') as [rm x2] eqn:Eo.
+  injection E as <- <- <-. cbn [w_wrs w_fls].
+  pose proof (on_frame_keeps xa r0') as Hk. rewrite Eo in Hk. destruct Hk as [K1 [K2 [K3 K4]]].
+  cbn [xa x_codec x_role x_cfg set_state set_codec] in K1, K2, K3.
+  split; [reflexivity|]. split; [reflexivity|]. split; [rewrite K1; exact Hf|].
+  assert (Hcan : canon (set_codec x0 c1) = canon x0).
+  { unfold canon. destruct Hf as [F1 [F2 F3]].
+    cbn [set_codec x_role x_codec x_state x_incomplete x_additional x_unflushed x_cfg]. rewrite F1, F2, F3. reflexivity. }
+  assert (HV1 : fview x2 (mkWorld rds1 (w_wrs w0) (w_fls w0) (w_keys w0) (rfl_log max (w_rds w0) (x_codec x0) (w_log w0)))
+                = finish u a (sview max c1 rds1)).
+  { rewrite fview_sview. cbn [w_rds]. rewrite K1, K2, K3. reflexivity. }
+  destruct (classify rr) eqn:Ecl.
+  - (* a frame was split off *)
+    destruct Hv as [Hv1 Hv2]. destruct Hr as [Hr1 Hr2].
+    destruct (classify_frame _ Ecl) as [v ->].
+    rewrite Hv1 in HV. cbn [finish] in HV.
+    destruct (classify (post_frame u a (ROk (Some v)))) eqn:Ecp.
+    + (* post-processing gives a frame *)
+      destruct (classify_frame _ Ecp) as [f Ef]. rewrite Ef in *.
+      cbn [check_connection_reset] in Ec. injection Ec as <- <-.
+      destruct (on_frame_canon2 xa (set_state x0 (x_state x0)) (ROk (Some f))) as [A1 A2].
+      { unfold xa. apply canon_set_state. exact Hcan. }
+      rewrite Eo in A1, A2. cbn [fst snd] in A1, A2.
+      assert (Hm : mrest V x0 = match rm with
+                                 | ROk (Some m) => ROk m :: mloop (finish u a (sview max c1 rds1)) x2
+                                 | ROk None => mloop (finish u a (sview max c1 rds1)) x2
+                                 | RErr e => [RErr e] | RPanic s => [RPanic s] | ROutOfFuel => [ROutOfFuel]
+                                 end).
+      { rewrite HV. cbn [mrest]. unfold mrest_with. cbn [check_connection_reset].
+        destruct (on_frame (set_state x0 (x_state x0)) (ROk (Some f))) as [rm' y2].
+        cbn [fst snd] in A1, A2. subst rm'.
+        destruct rm as [[m|]|e|s|]; try reflexivity.
+        - f_equal. apply mloop_canon. symmetry. exact A2.
+        - apply mloop_canon. symmetry. exact A2. }
+      destruct rm as [om|e|s|].
+      * left. exists om. split; [reflexivity|]. rewrite HV1. split.
+        { rewrite Hm. destruct om; reflexivity. }
+        rewrite K1. split; [exact Hr1|]. split; [exact (proj2 (K4 eq_refl))|].
+        unfold xmu, xbytes. cbn [w_rds]. rewrite K1. split; [exact Hv2|exact Hr2].
+      * right. right. split; [reflexivity|]. split.
+        { pose proof (on_frame_frame_io xa f) as Hio. rewrite Eo in Hio. cbn [fst] in Hio.
+          apply res_io_wb. exact Hio. }
+        rewrite Hm. reflexivity.
+      * right. right. split; [reflexivity|]. split; [discriminate|]. rewrite Hm. reflexivity.
+      * right. right. split; [reflexivity|]. split; [discriminate|]. rewrite Hm. reflexivity.
+    + exfalso. apply classify_wb in Ecp. apply post_frame_wb in Ecp. discriminate Ecp.
+    + (* post-processing fails: the item ends the run *)
+      destruct (classify_stop _ Ecp) as [Hnf Hwb].
+      destruct (mrest_with_nonframe (mloop []) x0 (set_codec x0 c1) _ Hnf Hwb Hcan _ _ _ _ Ec Eo)
+        as [M1 [M2 M3]].
+      right. right. split; [exact M2|]. split; [exact M3|]. rewrite HV. cbn [mrest]. exact M1.
+  - (* WouldBlock *)
+    destruct Hv as [Hv1 [Hv2 Hv3]]. destruct Hr as [Hr1 Hr2].
+    rewrite (classify_wb _ Ecl) in *. cbn [post_frame check_connection_reset] in Ec.
+    injection Ec as <- <-. cbn [on_frame] in Eo. injection Eo as <- <-.
+    right. left. split; [reflexivity|]. split.
+    { rewrite fview_sview. cbn [w_rds xa x_role x_cfg x_codec set_state set_codec].
+      fold u a max. rewrite <- Hv1. symmetry. exact HV. }
+    split. { transitivity (canon (set_codec x0 c1)); [reflexivity|exact Hcan]. }
+    cbn [xa x_codec x_state set_state set_codec w_rds]. split; [exact Hr1|]. split; [reflexivity|].
+    split.
+    + intros ->. rewrite HV, Hv1, (Hv2 eq_refl). reflexivity.
+    + intros Hne. unfold xmu. cbn [w_rds x_codec set_state set_codec]. exact (Hv3 Hne).
+  - (* end of file, hard error, decoding error *)
+    destruct Hv as [Hv1 Hv2]. destruct (classify_stop _ Ecl) as [Hnf0 Hwb0].
+    assert (Hpost : (forall f, post_frame u a rr <> ROk (Some f)) /\ post_frame u a rr <> RErr (EIo WouldBlock)).
+    { destruct rr as [[v|]|e|s|]; cbn [post_frame]; try (split; discriminate);
+        try (exfalso; exact (Hnf0 v eq_refl)).
+      split; [discriminate|]. intros X. apply Hwb0. injection X as ->. reflexivity. }
+    destruct Hpost as [Hnf Hwb].
+    destruct (mrest_with_nonframe (mloop []) x0 (set_codec x0 c1) _ Hnf Hwb Hcan _ _ _ _ Ec Eo)
+      as [M1 [M2 M3]].
+    right. right. split; [exact M2|]. split; [exact M3|]. rewrite HV, Hv1. cbn [finish].
+    destruct (classify (post_frame u a rr)) eqn:Ecp; cbn [mrest]; exact M1.
+Qed.
+
+(** ** 8.10 read's loop and reads against the reference machine *)
+
+Definition rinv (B : N) (x : ctx) : Prop :=
+  c_max_out (x_codec x) = B /\ c_out (x_codec x) = [] /\ x_state x <> Terminated /\ codec_rest (x_codec x).
+
+(* enough accepting writes and flushes for the calls that can still happen *)
+Definition supply (B : N) (x : ctx) (w : world) : Prop :=
+  wgood B (2 * S (xmu x w)) (S (xmu x w)) w.
+
+Lemma wgood_same B a b w w' : w_wrs w' = w_wrs w -> w_fls w' = w_fls w -> wgood B a b w -> wgood B a b w'.
+Proof. intros H1 H2. unfold wgood. rewrite H1, H2. auto. Qed.
+
+Lemma read_loop_view B : forall lf x w r x' w',
+  rinv B x -> supply B x w -> (xbytes x w < lf)%nat ->
+  read_loop lf x w = (r, x', w') ->
+  let V := fview x w in
+  (exists m, r = ROk m /\ mloop V x = ROk m :: mloop (fview x' w') x' /\
+             rinv B x' /\ supply B x' w' /\ (xmu x' w' < xmu x w)%nat)
+  \/ (r = RErr (EIo WouldBlock) /\ mloop V x = mloop (fview x' w') x' /\ rinv B x' /\
+      (w_rds w' = [] -> mloop (fview x' w') x' = []) /\
+      (w_rds w' <> [] -> supply B x' w' /\ (xmu x' w' < xmu x w)%nat))
+  \/ ((forall m, r <> ROk m) /\ r <> RErr (EIo WouldBlock) /\ mloop V x = [r]).
+Proof.
+  induction lf as [|lf IH]; intros x w r x' w' Hinv Hsup Hlf E V; [lia|].
+  rewrite read_loop_S in E.
+  destruct Hinv as [I1 [I2 [I3 I4]]].
+  assert (Hout : blen (c_out (x_codec x)) <= B) by (rewrite I2; unfold blen; cbn [length]; lia).
+  destruct (pre_step_acc B x w I1 Hout (wgood_weaken _ _ _ 2 1 _ Hsup ltac:(lia) ltac:(lia)))
+    as [w0 [Ep Ha]].
+  rewrite Ep in E.
+  destruct (pre_pure_canon2 x x (next_key w) zero_key eq_refl) as [P1 P2].
+  pose proof (pre_pure_idem x (next_key w) zero_key) as Hidem.
+  pose proof (pre_pure_ok_keeps x (next_key w)) as Hkeep.
+  assert (HM : mloop V x = mpre (mrest V) x) by apply mloop_eq. unfold mpre in HM.
+  destruct (pre_pure x (next_key w)) as [r0 x0] eqn:Ek.
+  destruct (pre_pure x zero_key) as [r0z y0] eqn:Ez. cbn [fst snd] in *. subst r0z.
+  destruct (pre_pure_res x (next_key w)) as [R|R]; rewrite Ek in R; cbn [fst] in R; subst r0.
+  2:{ injection E as <- <- <-. right. right. split; [discriminate|]. split; [discriminate|exact HM]. }
+  destruct (Hkeep x0 eq_refl) as [Q1 [Q2 [Q3 [Q4 [Q5 [Q6 [Q7 [Q8 Q9]]]]]]]].
+  specialize (Hidem x0 I2 I3 eq_refl). destruct Hidem as [D1 D2].
+  destruct Ha as [A1 A23].
+  assert (Hrest0 : codec_rest (x_codec x0)) by (unfold codec_rest; rewrite Q5, Q6; exact I4).
+  assert (Hst0 : x_state x0 <> Terminated) by (rewrite Q3; exact I3).
+  assert (HV0 : fview x0 w0 = V) by (unfold V, fview; rewrite Q1, Q2, Q5, Q6, A1; reflexivity).
+  assert (Hmu0 : xmu x0 w0 = xmu x w) by (unfold xmu, mu, buffered, hdr_bit; rewrite Q5, Q6, A1; reflexivity).
+  assert (Hby0 : xbytes x0 w0 = xbytes x w) by (unfold xbytes, bytes_left; rewrite Q5, A1; reflexivity).
+  assert (HM0 : mloop V x = mrest V x0).
+  { rewrite HM. apply mrest_canon. symmetry. exact P2. }
+  destruct (read_message_frame x0 w0) as [[r1 x1] w1] eqn:Em.
+  destruct (rmf_view x0 w0 r1 x1 w1 Hrest0 Hst0 Em) as [W1 [W2 [[W3 [W4 W5]] H]]].
+  rewrite HV0 in H.
+  assert (Hsup1 : (xmu x1 w1 < xmu x w)%nat -> supply B x1 w1).
+  { intros Hlt. unfold supply. apply (wgood_same B _ _ w0 w1 W1 W2).
+    apply (wgood_adv B 2 1 _ _ w w0); [|split; assumption].
+    apply (wgood_weaken _ _ _ _ _ _ Hsup); lia. }
+  assert (Hmax1 : c_max_out (x_codec x1) = B) by (rewrite W4, Q7; exact I1).
+  assert (Hout1 : c_out (x_codec x1) = []) by (rewrite W3; exact (Q9 I2)).
+  destruct H as [[om [-> [H1 [H2 [H3 [H4 H5]]]]]] | [[-> [H1 [H2 [H3 [H4 [H5 H6]]]]]] | [H1 [H2 H3]]]].
+  - (* a frame was processed *)
+    rewrite Hmu0 in H4. rewrite Hby0 in H5.
+    assert (Hinv1 : rinv B x1) by (unfold rinv; auto).
+    destruct om as [m|].
+    + injection E as <- <- <-. left. exists m. split; [reflexivity|].
+      split; [rewrite HM0; exact H1|]. split; [exact Hinv1|]. split; [exact (Hsup1 H4)|exact H4].
+    + cbn [app] in H1.
+      destruct (IH _ _ _ _ _ Hinv1 (Hsup1 H4) ltac:(lia) E)
+        as [[m [-> [G1 [G2 [G3 G4]]]]] | [[-> [G1 [G2 [G3 G4]]]] | [G1 [G2 G3]]]].
+      * left. exists m. split; [reflexivity|]. split; [rewrite HM0, H1; exact G1|].
+        split; [exact G2|]. split; [exact G3|lia].
+      * right. left. split; [reflexivity|]. split; [rewrite HM0, H1; exact G1|].
+        split; [exact G2|]. split; [exact G3|]. intros Hne. destruct (G4 Hne) as [G5 G6]. split; [exact G5|lia].
+      * right. right. split; [exact G1|]. split; [exact G2|]. rewrite HM0, H1. exact G3.
+  - (* WouldBlock *)
+    injection E as <- <- <-. right. left. split; [reflexivity|].
+    assert (Hinv1 : rinv B x1) by (unfold rinv; rewrite H4; auto).
+    assert (HM1 : mloop V x1 = mrest V x0).
+    { rewrite mloop_eq. unfold mpre.
+      destruct (pre_pure_canon2 x1 x0 zero_key zero_key H2) as [C1 C2].
+      destruct (pre_pure x1 zero_key) as [rz yz]. cbn [fst snd] in C1, C2. rewrite D1 in C1. subst rz.
+      apply mrest_canon. rewrite C2. exact D2. }
+    rewrite H1. split; [rewrite HM0, HM1; reflexivity|]. split; [exact Hinv1|]. split.
+    + intros Hnil. rewrite HM1, (H5 Hnil). reflexivity.
+    + intros Hne. specialize (H6 Hne). rewrite Hmu0 in H6. split; [exact (Hsup1 H6)|exact H6].
+  - (* the run ends *)
+    destruct r1 as [om|e|s|]; [discriminate H1| | |]; injection E as <- <- <-; right; right.
+    + split; [discriminate|]. split; [|rewrite HM0; exact H3].
+      intros X. apply H2. injection X as ->. reflexivity.
+    + split; [discriminate|]. split; [discriminate|]. rewrite HM0. exact H3.
+    + split; [discriminate|]. split; [discriminate|]. rewrite HM0. exact H3.
+Qed.
+
+(* MAIN THEOREM (messages).  Accepting write side, nothing queued in out_buffer: under every schedule
+   the successive results of read are those of the reference machine run over the whole-stream
+   frame-level reference. *)
+Theorem reads_ref B : forall fuel x w,
+  c_max_out (x_codec x) = B -> c_out (x_codec x) = [] -> codec_rest (x_codec x) ->
+  supply B x w -> (xmu x w < fuel)%nat ->
+  reads fuel x w =
+  if is_terminated (x_state x) then [RErr EAlreadyClosed] else mloop (fview x w) x.
+Proof.
+  induction fuel as [|f IH]; intros x w HB Hout Hrest Hsup Hf; [lia|].
+  cbn [reads]. unfold read.
+  destruct (is_terminated (x_state x)) eqn:Et; [reflexivity|].
+  assert (Hst : x_state x <> Terminated) by (intros X; rewrite X in Et; discriminate Et).
+  destruct (read_loop _ x w) as [[r x'] w'] eqn:E.
+  assert (Hinv : rinv B x) by (unfold rinv; auto).
+  assert (Hlf : (xbytes x w < S (length (c_in (x_codec x)) + rd_bytes (w_rds w)))%nat)
+    by (unfold xbytes, bytes_left; lia).
+  destruct (read_loop_view B _ _ _ _ _ _ Hinv Hsup Hlf E)
+    as [[m [-> [G1 [G2 [G3 G4]]]]] | [[-> [G1 [G2 [G3 G4]]]] | [G1 [G2 G3]]]].
+  - destruct G2 as [J1 [J2 [J3 J4]]]. rewrite G1. f_equal.
+    rewrite (IH x' w' J1 J2 J4 G3 ltac:(lia)).
+    destruct (x_state x'); try reflexivity. exfalso. exact (J3 eq_refl).
+  - destruct G2 as [J1 [J2 [J3 J4]]]. rewrite G1. destruct (w_rds w') as [|o rds'] eqn:Er.
+    + symmetry. exact (G3 eq_refl).
+    + destruct (G4 ltac:(discriminate)) as [G5 G6].
+      rewrite (IH x' w' J1 J2 J4 G5 ltac:(lia)).
+      destruct (x_state x'); try reflexivity. exfalso. exact (J3 eq_refl).
+  - rewrite G3. destruct r as [m|e|s|]; try reflexivity.
+    + exfalso. exact (G1 m eq_refl).
+    + destruct e as [| |[]| | | |]; try reflexivity. exfalso. exact (G2 eq_refl).
+Qed.
+
+(** ** 8.11 Corollaries: schedule independence, WouldBlock is a no-op, from_partially_read *)
+
+(* the hypotheses on the context: max_write_buffer_size is B, out_buffer is empty, a held header is
+   still waiting for payload bytes *)
+Definition ctx_ready (B : N) (x : ctx) : Prop :=
+  c_max_out (x_codec x) = B /\ c_out (x_codec x) = [] /\ codec_rest (x_codec x).
+
+Theorem reads_sched_indep B x w1 w2 f1 f2 :
+  ctx_ready B x -> supply B x w1 -> supply B x w2 ->
+  sched_data (w_rds w1) = sched_data (w_rds w2) ->
+  sched_end (w_rds w1) = sched_end (w_rds w2) ->
+  (xmu x w1 < f1)%nat -> (xmu x w2 < f2)%nat ->
+  reads f1 x w1 = reads f2 x w2.
+Proof.
+  intros [R1 [R2 R3]] S1 S2 Hd He F1 F2.
+  rewrite (reads_ref B f1 x w1 R1 R2 R3 S1 F1), (reads_ref B f2 x w2 R1 R2 R3 S2 F2).
+  unfold fview. rewrite Hd, He. reflexivity.
+Qed.
+
+Theorem reads_wouldblock_noop B x w x' w' :
+  ctx_ready B x -> supply B x w ->
+  read x w = (RErr (EIo WouldBlock), x', w') ->
+  ctx_ready B x' /\ x_state x' <> Terminated /\
+  forall f f', supply B x' w' -> (xmu x' w' < f')%nat -> (xmu x w < f)%nat ->
+               reads f' x' w' = reads f x w.
+Proof.
+  intros [R1 [R2 R3]] S1 E. unfold read in E.
+  destruct (is_terminated (x_state x)) eqn:Et; [discriminate E|].
+  assert (Hst : x_state x <> Terminated) by (intros X; rewrite X in Et; discriminate Et).
+  assert (Hinv : rinv B x) by (unfold rinv; auto).
+  assert (Hlf : (xbytes x w < S (length (c_in (x_codec x)) + rd_bytes (w_rds w)))%nat)
+    by (unfold xbytes, bytes_left; lia).
+  destruct (read_loop_view B _ _ _ _ _ _ Hinv S1 Hlf E)
+    as [[m [X _]] | [[_ [G1 [G2 _]]] | [_ [X _]]]]; [discriminate X| |exfalso; exact (X eq_refl)].
+  destruct G2 as [J1 [J2 [J3 J4]]].
+  split; [unfold ctx_ready; auto|]. split; [exact J3|].
+  intros f f' S' F' F.
+  rewrite (reads_ref B f' x' w' J1 J2 J4 S' F'), (reads_ref B f x w R1 R2 R3 S1 F), Et.
+  destruct (x_state x'); try (symmetry; exact G1). exfalso. exact (J3 eq_refl).
+Qed.
+
+Lemma ctx_new_ready r p cfg x :
+  ctx_new r p cfg = Some x ->
+  ctx_ready (cfg_max_write_buffer_size cfg) x /\ c_in (x_codec x) = p /\ c_hdr (x_codec x) = None /\
+  x = mkCtx r (set_limits (codec_new p) (cfg_max_write_buffer_size cfg) (cfg_write_buffer_size cfg))
+            Active None None false cfg.
+Proof.
+  unfold ctx_new. destruct (config_valid cfg); [|discriminate]. intros E. injection E as <-.
+  unfold ctx_ready, codec_rest. cbn. auto.
+Qed.
+
+(* from_partially_read p, then a schedule  ==  fresh socket under any schedule delivering p ++ data *)
+Theorem reads_partially_read r p cfg xp x0 w w0 f f0 :
+  ctx_new r p cfg = Some xp -> ctx_new r [] cfg = Some x0 ->
+  supply (cfg_max_write_buffer_size cfg) xp w -> supply (cfg_max_write_buffer_size cfg) x0 w0 ->
+  sched_data (w_rds w0) = p ++ sched_data (w_rds w) ->
+  sched_end (w_rds w0) = sched_end (w_rds w) ->
+  (xmu xp w < f)%nat -> (xmu x0 w0 < f0)%nat ->
+  reads f xp w = reads f0 x0 w0.
+Proof.
+  intros Ep E0 Sp S0 Hd He Fp F0.
+  destruct (ctx_new_ready _ _ _ _ Ep) as [[P1 [P2 P3]] [P4 [P5 P6]]].
+  destruct (ctx_new_ready _ _ _ _ E0) as [[Q1 [Q2 Q3]] [Q4 [Q5 Q6]]].
+  rewrite (reads_ref _ f xp w P1 P2 P3 Sp Fp), (reads_ref _ f0 x0 w0 Q1 Q2 Q3 S0 F0).
+  assert (Hs : x_state xp = x_state x0) by (rewrite P6, Q6; reflexivity). rewrite Hs.
+  destruct (is_terminated (x_state x0)); [reflexivity|].
+  assert (Hv : fview xp w = fview x0 w0).
+  { unfold fview. rewrite P4, P5, Q4, Q5, Hd, He. rewrite P6, Q6. reflexivity. }
+  rewrite Hv. apply mloop_canon. rewrite P6, Q6. reflexivity.
+Qed.
+
+(* removing every WouldBlock from a schedule, or cutting it differently, changes neither its data nor
+   its terminal: two convenient instances for the schedule-independence theorems *)
+Definition not_wb (o : rd_out) : bool := match o with RdErr WouldBlock => false | _ => true end.
+
+Lemma sched_filter_wb rds :
+  sched_data (filter not_wb rds) = sched_data rds /\ sched_end (filter not_wb rds) = sched_end rds.
+Proof.
+  induction rds as [|o r [IH1 IH2]]; [split; reflexivity|].
+  destruct o as [[|b bs]| |[]]; cbn [filter not_wb sched_data sched_end]; try (split; reflexivity);
+    try (split; [rewrite IH1; reflexivity|exact IH2]); try (split; assumption).
+Qed.
+
+Lemma sched_whole chunks tail :
+  Forall nonempty chunks -> concat chunks <> [] ->
+  sched_data (map RdData chunks ++ tail) = sched_data (RdData (concat chunks) :: tail) /\
+  sched_end (map RdData chunks ++ tail) = sched_end (RdData (concat chunks) :: tail).
+Proof.
+  intros Hne Hc. rewrite sched_data_chunks, sched_end_chunks by exact Hne.
+  destruct (concat chunks) as [|b bs] eqn:E; [exfalso; exact (Hc eq_refl)|].
+  cbn [sched_data sched_end]. split; reflexivity.
+Qed.
+
+(* one byte at a time, a WouldBlock after every byte *)
+Definition drip (bs : bytes) : list rd_out := flat_map (fun b => [RdData [b]; RdErr WouldBlock]) bs.
+
+Lemma sched_drip bs tail :
+  sched_data (drip bs ++ tail) = bs ++ sched_data tail /\ sched_end (drip bs ++ tail) = sched_end tail.
+Proof.
+  induction bs as [|b r [IH1 IH2]]; [split; reflexivity|].
+  cbn [drip flat_map app sched_data sched_end]. fold (drip r). split; [rewrite IH1; reflexivity|exact IH2].
+Qed.
+
+Lemma sched_drip_whole bs tail :
+  bs <> [] ->
+  sched_data (drip bs ++ tail) = sched_data (RdData bs :: tail) /\
+  sched_end (drip bs ++ tail) = sched_end (RdData bs :: tail).
+Proof.
+  intros H. destruct (sched_drip bs tail) as [A B]. rewrite A, B.
+  destruct bs as [|b r]; [exfalso; exact (H eq_refl)|]. split; reflexivity.
+Qed.
+
+(** ** 8.12 The counterexample to the unrestricted message-level statement, in full *)
+Lemma messages_refuted_witness :
+  exists (cfg : config) (msg : message) (rds1 rds2 : list rd_out) (wrs : list wr_out) (fls : list fl_out)
+         (x0 x : ctx) (w1 w2 : world),
+    Forall (acc_wr (cfg_max_write_buffer_size cfg)) wrs /\ Forall (fun o => o = FlOk) fls /\
+    sched_data rds1 = sched_data rds2 /\ sched_end rds1 = sched_end rds2 /\
+    ctx_new Server [] cfg = Some x0 /\
+    write x0 msg (mkWorld rds1 wrs fls [] []) = (ROk tt, x, w1) /\
+    write x0 msg (mkWorld rds2 wrs fls [] []) = (ROk tt, x, w2) /\
+    blen (c_out (x_codec x)) = 98 /\
+    reads 50 x w1 = [ROk (MClose (Some (CNormal, []))); RErr (EProtocol ReceivedAfterClosing)] /\
+    reads 50 x w2 = [ROk (MClose (Some (CNormal, []))); RErr EConnectionClosed].
+Proof.
+  pose (x0 := mkCtx Server (set_limits (codec_new []) 101 100) Active None None false cx_cfg).
+  pose (m := MBinary (repeat 0 96%nat)).
+  exists cx_cfg, m, cx_whole, cx_cut, (repeat (WrAccept 1000) 10), (repeat FlOk 10), x0,
+         (snd (fst (write x0 m (cx_world cx_whole)))),
+         (snd (write x0 m (cx_world cx_whole))), (snd (write x0 m (cx_world cx_cut))).
+  split. { apply Forall_forall. intros o Ho. apply repeat_spec in Ho. subst o. cbn. lia. }
+  split. { apply Forall_forall. intros o Ho. apply repeat_spec in Ho. exact Ho. }
+  vm_compute. repeat split; reflexivity.
+Qed.
